@@ -255,6 +255,33 @@ class spmatrix:
         acc = self._summed()
         return ndarray.of([acc.get((i, i), 0.0) for i in range(builtins.min(self._shape))])
 
+    def setdiag(self, values, k=0):
+        """scipy's setdiag (main diagonal): CSR/CSC with every diagonal entry stored -> the values are
+        written into the existing data array (an object sharing it sees them); otherwise the structure
+        is rebuilt with fresh arrays"""
+        if k != 0:
+            raise HarnessError("setdiag with k != 0")
+        nd = builtins.min(self._shape)
+        vals = list(values.items) if isinstance(values, ndarray) else ([values] * nd if not isinstance(values, (list, tuple)) else list(values))
+        if len(vals) == 1 and nd != 1:
+            vals = vals * nd
+        vals = vals[:nd]
+        tr = self.triples()
+        pos = {}
+        for idx, (i, j, v) in enumerate(tr):
+            if i == j:
+                pos.setdefault(i, []).append(idx)
+        if self.format in ("csr", "csc") and builtins.all(len(pos.get(i, [])) == 1 for i in range(len(vals))):
+            self.data._check_w()
+            for i, v in enumerate(vals):
+                self.data._buf[self.data._idx[pos[i][0]]] = v
+            return
+        rest = [(i, j, v) for (i, j, v) in tr if i != j or i >= len(vals)]
+        new = self._like(rest + [(i, i, v) for i, v in enumerate(vals)])
+        if self.format in ("csr", "csc"):
+            new = self._like(spmatrix._canon(new.triples(), self.format))
+        self._a, self._b, self.data = new._a, new._b, new.data
+
     def count_nonzero(self):
         return builtins.sum(1 for _, _, v in self.triples() if not _iszero(v))
 
